@@ -67,7 +67,7 @@ RULE = ("op typed: one value assigned through remote.sdo[...] .raw, then read ba
         "numeric types with boundary/seeded values (all values of 8-bit types; of 16-bit types in thorough), BOOLEAN, "
         "REAL patterns, strings and DOMAIN of length 0..200; entries of every access type (rw, ro, wo, const, rwr, rww: "
         "every type x access type x side on every run, and a seeded share of the value sweep); access by index, name "
-        "and 'Record.Member'; delivery inline, by a dispatcher thread with seeded delays, over python-can's virtual "
+        "and 'Record.Member'; delivery inline, by a dispatcher thread with seeded delays, by a slow device (every response 0.45 s late, client time-out raised to 2 s), over python-can's virtual "
         "bus; op multi: 1..8 client threads on distinct nodes (oracle only); non-trivial = set went through, the local "
         "side returned a value and the remote side returned a value or a refusal")
 
@@ -85,6 +85,9 @@ class InlineNet(canopen.Network):
         self.hub.route(self, can_id, bytes(data))
 
 
+SLOW_S = 0.45
+
+
 class Hub:
     def __init__(self, mode, rng=None):
         self.nets = []
@@ -95,7 +98,10 @@ class Hub:
         self.thread = None
         self.stop = False
         self.hold, self.held = None, None       # "armed": keep back the next frame of a non-client net
-        if mode == "thread":
+        # "slow": every response reaches the client SLOW_S late - well inside the RESPONSE_TIMEOUT the application
+        # configured on the client (2.0 s), far beyond the class default (0.3 s)
+        self.fixed_delay = SLOW_S if mode == "slow" else None
+        if mode in ("thread", "slow"):
             self.thread = threading.Thread(target=self.pump, daemon=True)
             self.thread.start()
 
@@ -117,7 +123,11 @@ class Hub:
                     if n is not hsrc:
                         n.notify(hid, bytearray(hdata), 0.0)
         else:
-            self.q.put((src, can_id, data, self.rng.random() * 0.0005 if self.rng else 0))
+            if self.fixed_delay is not None:
+                delay = self.fixed_delay if src is not self.nets[0] else 0
+            else:
+                delay = self.rng.random() * 0.0005 if self.rng else 0
+            self.q.put((src, can_id, data, delay))
 
     def pump(self):
         while not self.stop:
@@ -709,6 +719,9 @@ def gen_ops(tier, rng):
 
 
 CORPUS = [
+    # a slow device: every response arrives 0.45 s late, the application has raised the client's time-out to 2 s
+    "typed v@8200@7,0,n,n 8200 0 7 i2271560481 slow-idx",
+    "typed v@8201@10,0,n,n 8201 0 10 x0102030405060708090a slow-name",
     "typed v@8192@10,0,n,n 8192 0 10 x- inline-idx",       # F6: empty OCTET_STRING read back as 00000000
     "typed v@8192@15,0,n,n 8192 0 15 x- inline-idx",
     # access types: the master writes a write-only entry, the application reads it back (by index, by name, as a
